@@ -18,6 +18,10 @@ TEXT = {
          "MC_Store checks CtxOK/LinksTrue/FlatExact/CompareOK on the Ideal layer and requires TLC to refute the known deviations; conformance compares Path(), Parent()==nil, FlattenedKeys and diff.CompareConfigs of every handle after every transition; the listed finding KF-15 is modelled as a deviation group so that any other disagreement is a violation."),
  "C10": ("store", "TLA+ heap/handle state machine with merge actions whose source is another held config (direct or embedded): NoSharing / SourceUntouched checked by TLC, replay of all merge-then-mutate histories, trace validation, plus merge-family replay with the source observed before/after",
          "MC_Store checks that after a merge destination and source share no node and the source's contents/path/parent are unchanged (TLC refutes the re-parenting deviation that was fixed); Gen_Store replays every history merge -> Set/Remove/Merge on either side and compares every handle, including the aliasing relation computed from pointer identity."),
+ "C05": ("norm", "TLA+ normalisation spec (UcfgNormalize): order-free Ideal definition proved equal by TLC to the code-shaped sequential insertion on all conflict-free ordered inputs; all flattenings of all trees; every case replayed in six Go representations; random inputs trace-validated",
+         "MC_Normalize checks Confluent/OrderFree/FlattenOK/Idempotent exhaustively (and that the sequential algorithm does accept conflicts, the listed finding); Gen_Normalize emits ordered inputs and tree flattenings; the harness builds each as struct (exact visiting order), generic maps, interface-keyed maps, typed maps/slices/arrays, pointers and nested *Config, compares the unpacked data with the spec's observation and re-feeds it (idempotence)."),
+ "C09": ("norm", "TLA+ confluence check (all visiting orders explored by TLC) + replay of every map-built case under K different Go map insertion orders with all outcomes compared, for normalisation and merge",
+         "At the model level TLC explores every insertion order (every ordered input is a state) and checks that the outcome is the order-free one; on the code every case built from Go maps is executed 8 (quick) / 32 (thorough) times with rebuilt maps, and all outcomes must equal the specification's single outcome, or lie in the listed deviation's outcome set for conflicting inputs."),
 }
 NOTE = "bounded universes (stated in evidence.rule); projection through the public API; TLC/JVM/Go runtime trusted; Ideal layer + named deviations listed in known_findings.json"
 
@@ -31,6 +35,8 @@ m = dict(
                source_commits=[], add_only=True),
     
     engines=[
+        dict(name="norm", path="spec/UcfgNormalize.tla", serves_properties=["C05", "C09", "C18"],
+             kind_free_text="TLA+ specification of Go-value normalisation (sequential and order-free definitions); MC_Normalize/Gen_Normalize/Trace_Normalize; harness/cmd/ucfgconf/fam_norm.go"),
         dict(name="store", path="spec/UcfgStore.tla", serves_properties=["C10", "C12", "C15"],
              kind_free_text="TLA+ state machine of the Config heap (nodes, handles, one action per API call); MC_Store/Gen_Store/Trace_Store; harness/cmd/ucfgconf/fam_store.go"),
         dict(name="merge", path="spec/UcfgMerge.tla", serves_properties=["C01", "C16"],
